@@ -1253,7 +1253,7 @@ func ThinTarget(p *Prog, fn *ssa.Function) (*ssa.Function, *ssa.Call) {
 				}
 				ok = false
 			}
-		case *ssa.UnOp, *ssa.FieldAddr, *ssa.Field, *ssa.Extract, *ssa.DebugRef, *ssa.MakeInterface, *ssa.ChangeType, *ssa.Alloc, *ssa.Store, *ssa.IndexAddr, *ssa.Slice:
+		case *ssa.UnOp, *ssa.FieldAddr, *ssa.Field, *ssa.Extract, *ssa.DebugRef, *ssa.MakeInterface, *ssa.ChangeType, *ssa.Alloc, *ssa.Store, *ssa.IndexAddr, *ssa.Slice, *ssa.MakeChan, *ssa.MakeMap, *ssa.MakeSlice:
 		default:
 			ok = false
 		}
@@ -1268,6 +1268,36 @@ func ThinTarget(p *Prog, fn *ssa.Function) (*ssa.Function, *ssa.Call) {
 	return g, call
 }
 
+
+// SameParamsImpl: while f only forwards all of its parameters, in order (possibly followed by constants for the extra
+// parameters of a more general form), to one function of the repository and returns that function's results
+// (`func (q) Shift() (T, error) { return q.removeFirst() }`, `Schedule…(fn, d) = Schedule…AndRetry(fn, d, 0)`), the
+// function that does the work; f itself otherwise. Parameter positions are the same in both, so a rule written for f
+// reads the implementation as is (the constant-valued extra parameters are the rule's business).
+func SameParamsImpl(p *Prog, f *ssa.Function) *ssa.Function {
+	for depth := 0; depth < 3 && f != nil; depth++ {
+		tgt, call := ThinTarget(p, f)
+		if tgt == nil || tgt == f || len(call.Call.Args) < len(f.Params) || len(tgt.Params) != len(call.Call.Args) {
+			return f
+		}
+		for i, a := range call.Call.Args {
+			if i < len(f.Params) {
+				if Resolve(a) != ssa.Value(f.Params[i]) {
+					return f
+				}
+			} else {
+				switch Unwrap(a).(type) {
+				case *ssa.Const, *ssa.MakeChan, *ssa.MakeMap, *ssa.MakeSlice:
+					// extra arguments of the general form: constants or freshly made values (`…ByOptions(a, make(chan T), 0)`)
+				default:
+					return f
+				}
+			}
+		}
+		f = tgt
+	}
+	return f
+}
 
 // ReturnedClosure: the closure of f that f returns (directly, through conversions, or as the result of a call it is
 // handed to - `return Wrap(func…)`) on its non-error returns; nil when there is none or it is not unique. Other closures
